@@ -968,7 +968,7 @@ def main(pid, tier):
 def replay(pid, path):
     """re-run the recorded operation sequence on the current tree and let TLC judge it again"""
     case = json.load(open(path))['case']
-    if case.get('replay') == 'key':
+    if case.get('replay') == 'key' or (case.get('variant') or {}).get('replay') == 'key':
         from . import key_checks
         return key_checks.replay(pid, path)
     wd = os.path.join(common.scratch('cache-replay'), 'r')
